@@ -25,7 +25,7 @@ def sany():
     bad = []
     for f in sorted(glob.glob(os.path.join(vcommon.SPEC, "*.tla"))):
         # modules for Apalache (EXTENDS Apalache) are parsed and type-checked by Apalache itself when they are used
-        if re.search(r"^EXTENDS.*\bApalache\b", open(f).read(), re.M):
+        if re.search(r"^EXTENDS.*\bApalache\b", open(f).read(), re.M) or "_gen" in os.path.basename(f):
             continue
         p = subprocess.run(["java", "-cp", vcommon.TLA_CP, "tla2sany.SANY", os.path.basename(f)], cwd=vcommon.SPEC,
                            stdout=subprocess.PIPE, stderr=subprocess.STDOUT, text=True)
